@@ -485,6 +485,92 @@ def runMunm (r : Report) (s : Section) (l : Line) (fs : Fields) (bits : Nat) (j 
       if g "MTB" ≠ "skip" then r := stdMonitor r s l fs j "MTB" "toml-bytes"
   return r
 
+def bitsOfTok (t : String) : Option Nat :=
+  match (if t.endsWith "r" then String.ofList (t.toList.filter (· ≠ (Char.ofNat 114))) else t).toNat? with
+  | some n => if n ≤ 15 then some n else none
+  | none => none
+
+/-- the reader entry points `mapping.Unmarshal{Json,Yaml,Toml}Reader` on a reader of the caller with behaviour `mode`
+(every outcome kind of a user-supplied `io.Reader`), next to the bytes entry points on the same content.
+  plain / onebyte / zero (a `(0, nil)` read between the chunks): the reader result IS the bytes result;
+  cut (an error after half of the content) / errfirst: an error verdict - never a value;
+  short (half of the content, then io.EOF): half a JSON object is never a document - an error verdict;
+  tail (the whole content, then an error instead of io.EOF): YAML / TOML read everything first (`io.ReadAll`) and fail,
+        the JSON decoder stops at the closing brace and never sees it;
+  panic / panicstr (the reader panics with an error value / with a string): the panic reaches the caller. -/
+def runMrd (r : Report) (s : Section) (l : Line) (fs : Fields) (mode : String) (bits : Nat) (j : J) : Report := Id.run do
+  let mut r := r
+  let o : Opts := { optsOfBits bits with env := envOfTy (.struct fs) }
+  let mJ := eitherF32 (fun o => printRes (unmarshalWith o fs j)) o (obs? l.obs "JB")
+  let mY := eitherF32 (fun o => printRes (unmarshalYaml o fs (embY j))) o (obs? l.obs "YB")
+  let mT := eitherF32 (fun o => tomlFront j (fun t => printRes (unmarshalToml o fs t))) o (obs? l.obs "TB")
+  let im := tyInModel (.struct fs)
+  let viaReader (b : String) (isJson : Bool) : String :=
+    if b = "skip" then b
+    else if mode = "plain" ∨ mode = "onebyte" ∨ mode = "zero" then b
+    else if mode = "cut" ∨ mode = "errfirst" then "err"
+    else if mode = "tail" then (if isJson then b else "err")
+    else if mode = "short" then "err"
+    else "panic"
+  r := checkTokM im r s l "JB" mJ
+  r := checkTokM im r s l "YB" mY
+  r := checkTokM im r s l "TB" mT
+  r := checkTokM im r s l "JR" (viaReader mJ true)
+  -- short: half of a YAML / TOML text may be a document of its own (fewer lines): not predicted, only the JSON verdict is
+  if mode ≠ "short" then
+    r := checkTokM im r s l "YR" (viaReader mY false)
+    r := checkTokM im r s l "TR" (viaReader mT false)
+  r := aliasMonitor r s l
+  r := r.addCover s!"mrd-reader-{mode}"
+  r := r.addCover s!"mrd-{mode}-{classOf mJ}"
+  -- monitor, on the implementation's observations only
+  let g (k : String) : String := (obs? l.obs k).getD "?"
+  let pairs := [("JB", "JR"), ("YB", "YR"), ("TB", "TR")]
+  if mode = "plain" ∨ mode = "onebyte" ∨ mode = "zero" then
+    if pairs.any (fun p => g p.1 ≠ g p.2) then
+      r := r.violation s.idx l.idx s!"reader-differs-from-bytes class=reader mode={mode} opts={bits} JB=[{g "JB"}] JR=[{g "JR"}] YB=[{g "YB"}] YR=[{g "YR"}] TB=[{g "TB"}] TR=[{g "TR"}]"
+  else if mode = "cut" ∨ mode = "errfirst" then
+    if pairs.any (fun p => (g p.2).startsWith "ok:") then
+      r := r.violation s.idx l.idx s!"reader-error-swallowed class=reader mode={mode} opts={bits} JR=[{g "JR"}] YR=[{g "YR"}] TR=[{g "TR"}]: the caller's reader failed before the document was complete and the entry point returned a value"
+  else if mode = "tail" then
+    -- the bytes verdict or an error, never another value
+    if pairs.any (fun p => g p.2 ≠ g p.1 ∧ g p.2 ≠ "err") then
+      r := r.violation s.idx l.idx s!"reader-differs-from-bytes class=reader mode={mode} opts={bits} JB=[{g "JB"}] JR=[{g "JR"}] YB=[{g "YB"}] YR=[{g "YR"}] TB=[{g "TB"}] TR=[{g "TR"}]"
+  else if mode = "short" then
+    if (g "JR").startsWith "ok:" then
+      r := r.violation s.idx l.idx s!"truncated-stream-accepted class=reader mode={mode} opts={bits} JR=[{g "JR"}]: half of a JSON document followed by io.EOF was decoded into a value"
+  else if mode = "panic" ∨ mode = "panicstr" then
+    if pairs.any (fun p => (g p.2).startsWith "ok:") then
+      r := r.violation s.idx l.idx s!"reader-panic-swallowed class=reader mode={mode} opts={bits} JR=[{g "JR"}] YR=[{g "YR"}] TR=[{g "TR"}]"
+  else r := r.mismatch s.idx l.idx "bad-op" (joinSp l.op)
+  return r
+
+/-- the error paths of `conf.Load` / `LoadConfig`: no file, a directory, an empty file. -/
+def runFmiss (r : Report) (s : Section) (l : Line) (fs : Fields) (ext env api kind : String) : Report := Id.run do
+  let mut r := r
+  let oc : Opts := { confOpts with env := envOfTy (.struct fs) }
+  let impl := l.obs.headD "?"
+  let im := tyInModel (.struct fs)
+  r := aliasMonitor r s l
+  r := r.addCover s!"fmiss-{kind}"
+  r := r.addCover s!"fmiss-{api}-UseEnv-{env}"
+  let model : String :=
+    if kind ≠ "empty" then "err"
+    else match loaderOf ext.toList with
+      | none => "err"
+      | some .json => "err"                                   -- no JSON value at all
+      | some .yaml => "err"                                   -- the empty YAML document is null, rendered as "" : not a table
+      | some .toml => eitherF32 (fun o => printRes (loadJsonO o fs (.obj .nil))) oc (some impl)   -- the empty table
+  r := r.addCover s!"fmiss-{kind}-{classOf model}"
+  if (im ∨ model = "err") ∧ impl ≠ model then r := r.mismatch s.idx l.idx model impl
+  if kind ≠ "empty" ∧ impl.startsWith "ok:" then
+    r := r.violation s.idx l.idx s!"missing-file-accepted class=file-api api={api} ext={ext} kind={kind} file=[{impl}]"
+  if loaderOf ext.toList = none ∧ impl.startsWith "ok:" then
+    r := r.violation s.idx l.idx s!"unknown-extension-accepted class=file-api api={api} ext={ext} file=[{impl}]"
+  if impl = "panic" then
+    r := r.violation s.idx l.idx s!"loader-panicked class=panic at=conf.{api} ext={ext} kind={kind}"
+  return r
+
 /-- documents whose keys collide up to case: every loader is run many times by the harness. -/
 def runCload (r : Report) (s : Section) (l : Line) (fs : Fields) (j : J) : Report := Id.run do
   let mut r := r
@@ -590,7 +676,21 @@ def runFload (r : Report) (s : Section) (l : Line) (fs : Fields) (ext : String) 
   if im ∧ impl ≠ model then r := r.mismatch s.idx l.idx model impl
   if ¬ im then r := r.addCover "outside-model-monitored-only"
   let want := if api = "MustLoad" ∧ (if im then model else impl).startsWith "ok:" then ["M=same"] else []
-  if dropAL (l.obs.drop 1) ≠ want then r := r.mismatch s.idx l.idx (joinSp (model :: want)) (joinSp (dropAL l.obs))
+  if (dropAL (l.obs.drop 1)).filter (fun t => !t.startsWith "D=") ≠ want then
+    r := r.mismatch s.idx l.idx (joinSp (model :: want)) (joinSp (dropAL l.obs))
+  -- D: the loader of the format called directly on the same (expanded) content
+  if impl ≠ "skip" then
+    let d := (obs? l.obs "D").getD "?"
+    match loaderOf ext.toList with
+    | none =>
+      if d ≠ "noloader" then r := r.mismatch s.idx l.idx "D=noloader" s!"D={d}"
+      if impl.startsWith "ok:" then
+        r := r.violation s.idx l.idx s!"unknown-extension-accepted class=file-api api={api} ext={ext} file=[{impl}]"
+    | some _ =>
+      if im ∧ d ≠ model then r := r.mismatch s.idx l.idx s!"D={model}" s!"D={d}"
+      r := r.addCover "fload-vs-direct-loader-checked"
+      if impl ≠ d then
+        r := r.violation s.idx l.idx s!"file-api-differs-from-loader class=file-api api={api} ext={ext} useEnv={useEnv} file=[{impl}] loader=[{d}]: conf.{api} on a file does not give what the loader of the extension gives on the same content"
   -- monitor: the result on the file is the result of the format's loader on the (un)expanded document
   if impl = "panic" then
     let cls := if printRes (lj { oc with f32Pinned := true } j') = "panic" then "env-float32-pointer" else "panic"
@@ -720,7 +820,8 @@ def runSection (r : Report) (s : Section) : Report := Id.run do
         if p.2 ≠ ob ∧ ¬ (ob.splitOn "nondet").length > 1 then
           r := r.violation s.idx l.idx s!"load-depends-on-earlier-calls class=sequence op=[{key}] first=[{p.2}] now=[{ob}]"
       | none => st := { st with seen := (key, ob) :: st.seen }
-    if ["cv", "load", "munm", "cload", "fload", "pload"].contains (l.op.headD "") then
+    if (l.op.getLastD "").length > 4096 then r := r.addCover s!"document-over-4KB-{l.op.headD ""}"
+    if ["cv", "load", "munm", "mrd", "cload", "fload", "pload"].contains (l.op.headD "") then
       st := { st with convs := st.convs + 1 }
     match l.op with
     | ["cv", slot, fmt, _, d] =>
@@ -766,9 +867,22 @@ def runSection (r : Report) (s : Section) : Report := Id.run do
       match st.fs with
       | none => if joinSp l.obs ≠ "no-type" then r := r.mismatch s.idx l.idx "no-type" (joinSp l.obs)
       | some fs =>
-        match parseDocTok d, bits.toNat? with
+        -- "<bits>r": the same options as a LIST in reverse order, each one twice (`applyMOpts_flags`: the same record)
+        if bits.endsWith "r" then r := r.addCover "munm-option-list-reversed-doubled"
+        match parseDocTok d, bitsOfTok bits with
         | some j, some b => r := runMunm r s l fs b j
         | _, _ => r := r.mismatch s.idx l.idx "bad-doc" d
+    | ["mrd", mode, bits, _, d] =>
+      match st.fs with
+      | none => if joinSp l.obs ≠ "no-type" then r := r.mismatch s.idx l.idx "no-type" (joinSp l.obs)
+      | some fs =>
+        match parseDocTok d, bitsOfTok bits with
+        | some j, some b => r := runMrd r s l fs mode b j
+        | _, _ => r := r.mismatch s.idx l.idx "bad-doc" d
+    | ["fmiss", ext, env, api, kind] =>
+      match st.fs with
+      | none => if joinSp l.obs ≠ "no-type" then r := r.mismatch s.idx l.idx "no-type" (joinSp l.obs)
+      | some fs => r := runFmiss r s l fs ext env api kind
     | ["cload", _, d] =>
       match st.fs, parseDocTok d with
       | some fs, some j => r := runCload r s l fs j
@@ -789,9 +903,10 @@ def runSection (r : Report) (s : Section) : Report := Id.run do
     | ["fload", ext, env, api, _, d] =>
       match st.fs, parseDocTok d with
       | some fs, some j =>
-        r := runFload r s l fs ext (env = "1") api j
+        r := runFload r s l fs ext (env ≠ "0") api j
+        if env = "2" then r := r.addCover "fload-UseEnv-given-twice"
         -- the loads of a section are one sequence in one process: which option sets follow each other
-        let e := env = "1"
+        let e := env ≠ "0"
         if docHasDollar j then
           match st.prevEnv with
           | some true => r := r.addCover (if api = "Bytes" then "seq-bytes-after-UseEnv" else if e then "seq-env-on-after-on" else "seq-env-off-after-on")
